@@ -9,7 +9,9 @@ package wsim
 
 import (
 	"fmt"
+	"runtime"
 	"sort"
+	"strings"
 	"time"
 
 	"github.com/bytom/bytom/account"
@@ -268,14 +270,43 @@ func (e *Env) NewWalletNode(dir string) (*WalletNode, error) {
 	return wn, nil
 }
 
-// Sync waits until the wallet has caught up with the node's best block.
-func (wn *WalletNode) Sync(timeout time.Duration) error {
+// updatersIdle: every walletUpdater goroutine of this process is parked in walletBlockWaiter's
+// select (the only blocking select of the updater).  Read off the goroutine dump: there is no other
+// way to know that an updater has finished its loop iteration and will not look at the chain again
+// before the next block arrives.
+func updatersIdle() bool {
+	buf := make([]byte, 1<<20)
+	for {
+		n := runtime.Stack(buf, true)
+		if n < len(buf) {
+			buf = buf[:n]
+			break
+		}
+		buf = make([]byte, 2*len(buf))
+	}
+	for _, g := range strings.Split(string(buf), "\n\n") {
+		if !strings.Contains(g, "(*Wallet).walletUpdater") {
+			continue
+		}
+		if !strings.Contains(g[:strings.IndexByte(g+"\n", '\n')], "[select") {
+			return false
+		}
+	}
+	return true
+}
+
+// Sync waits until the wallet has caught up with the node's best block (when expect is set) and
+// its updater is parked again.
+func (wn *WalletNode) Sync(expect bool, timeout time.Duration) error {
 	deadline := time.Now().Add(timeout)
 	for {
 		best := wn.N.Chain.BestBlockHash()
 		st := wn.W.GetWalletStatusInfo()
-		if st.BestHash == *best && st.WorkHash == *best {
-			return nil
+		if (!expect || (st.BestHash == *best && st.WorkHash == *best)) && updatersIdle() {
+			st2 := wn.W.GetWalletStatusInfo()
+			if st2 == st {
+				return nil
+			}
 		}
 		if time.Now().After(deadline) {
 			return fmt.Errorf("wallet did not catch up: wallet best %d work %d, chain best %d", st.BestHeight, st.WorkHeight, wn.N.Chain.BestBlockHeight())
